@@ -201,6 +201,13 @@ fn primary_cases() -> Vec<Base> {
         v.push(say_case(pe(num(n))));
         v.push(say_case(un(UnOp::Neg, pe(num(n)))));
     }
+    // number literals of every size, in an output, an assignment, a poetic slot, a list
+    for n in crate::refmodel::grammar::numerals() {
+        v.push(say_case(pe(num(&n))));
+        v.extend(finish(&[TSB::Simple(s_put(pe(num(&n)), name_simple("x")))]));
+        v.extend(finish(&[TSB::Simple(s_poetic_expr(name_simple("x"), pe(num(&n))))]));
+        v.extend(finish(&[TSB::Simple(s_rock(name_simple("x"), vec![pe(num(&n)), pe(num(&n))]))]));
+    }
     for s in ["", " ", "a b", "!,.;", "é", "a\nb", "it's (not) a comment"] {
         v.push(say_case(pe(string(s))));
     }
